@@ -54,11 +54,23 @@ class TD:
         return f"TD({self.s!r})"
 
 
-def _round_half_even_us(x):
-    """round(x * 1e6) to an integer number of microseconds, ties to even, on exact values."""
-    y = x * 1000000
-    f = y // 1  # floor; works for Fraction, symbolic reals (via int()) handled below
-    return f, y - f
+def _round_half_even(y):
+    """round-half-even of y to an integer; a single z3 If-expression on solver reals (no path fork,
+    no float re-check), exact arithmetic on Fractions / ints."""
+    var = getattr(y, "var", None)
+    if var is not None:
+        import z3
+        from crosshair.libimpl.builtinslib import SymbolicInt
+        from crosshair.tracers import NoTracing
+
+        with NoTracing():
+            if z3.is_int(var):
+                return y
+            floor = z3.ToInt(var)
+            half = z3.RealVal("1/2")
+            return SymbolicInt(z3.If(var != floor + half, z3.ToInt(var + half),
+                                     z3.If(floor % 2 == 0, floor, floor + 1)))
+    return round(y)
 
 
 class TDus:
@@ -73,12 +85,7 @@ class TDus:
         if _us is not None:
             self.us = _us
             return
-        y = seconds * 1000000
-        f = int(y // 1) if not hasattr(y, "__floor__") else y.__floor__()
-        frac = y - f
-        if frac > 0.5 or (frac == 0.5 and f % 2 == 1):
-            f = f + 1
-        self.us = f
+        self.us = _round_half_even(seconds * 1000000)
 
     def __gt__(self, o):
         return self.us > o.us
